@@ -8,7 +8,7 @@ import signal
 import sys
 from typing import Any, Callable
 
-from common import drive, hx, quiet
+from common import drive, hx, quiet, unhx
 import absast
 import framework as fw
 import gen
@@ -368,6 +368,13 @@ def statement_pair_programs():
     for s1 in STAT_FORMS:
         for r in RETURN_FORMS:
             yield f"{s1}\n{r}"
+    # a comment of every form in front of and behind every statement form
+    for s1 in ("x = 1", "f(x)", "local r"):
+        for s2 in STAT_FORMS + RETURN_FORMS[:2]:
+            for c in ("-- c\n", "--[[ml\nml]] ", "--[[one]] ", "--[==[ ]] ]==]\n-- d\n"):
+                sep = " ; " if s2.startswith("(") else "\n"
+                yield f"{s1}{sep}{c}{s2}"
+                yield f"{s1}{sep}{s2} {c}"
     # every statement form nested in every block-carrying form
     wrappers = ["do {} end", "while c do {} end", "repeat {} until c", "if c then {} end", "if c then else {} end",
                 "if c then elseif d then {} end", "for i = 1, 2 do {} end", "for k in p do {} end",
@@ -407,6 +414,41 @@ def literal_stress_programs():
                 q = lua_quote(v)
                 yield f"x = {q}"
                 yield f"do do f({q}, t[{q}]) end end"
+    # escapes of every length around the column where a wide literal is wrapped, at three indentation depths
+    for k in range(96, 126):
+        for it in ["é", "😀", "\x00", "\\", "\n", "\x7f", "é😀é"]:
+            q = lua_quote("a" * k + it + "b" * 30)
+            q2 = lua_quote("ab " * (k // 3) + "a" * (k % 3) + it + " cd" * 10)
+            yield f"x = {q}"
+            yield f"do do f({q}, {q2}) end end"
+
+
+def bracket_values(full: bool):
+    """long-bracket-eligible values whose beginning, inside and end tempt the level choice: the inside rules out levels
+    0..n-1, the end is a prefix of a closing bracket, the beginning is a newline (dropped by a long bracket) or a bracket"""
+    alphabet = ["]", "=", "["]
+    sufs = [""]
+    layer = [""]
+    for _ in range(4 if full else 3):
+        layer = [a + c for a in layer for c in alphabet]
+        sufs += layer
+    insides = ["", "]]", "[[", "]]x]=]", "[=[x[[", "]]x]=]x]==]", "]=]"]
+    heads = ["", "\n", "[", "]"] if full else ["", "\n", "["]
+    for h in heads:
+        for ins in insides:
+            for suf in sufs:
+                yield h + "l1\n" + ins + "\nl3\nl4\nl5\nl6" + suf
+
+
+def bracket_stress_programs(full: bool):
+    """every such value in every position where the text around a long bracket matters: plain, call argument, index, table key,
+    leftmost operand inside an index or key, after a unary operator, as a multi-line comment"""
+    for v in bracket_values(full):
+        q = lua_quote(v)
+        yield (f"x = {q}\nf({q}, t[{q}])\nt[{q} .. k][{q} == x] = {{[{q}] = 1, [{q} .. k] = {q}, [#{q}] = -{q}}}\n"
+               f"g {q}\nt[({q}):len()] = f{q}\n")
+        if "\n" != v[0] and "]======]" not in v:
+            yield f"--[======[{v}]======]\nx = 1 --[======[{v}]======] y = 2\n"
 
 
 def corpus_files() -> list[tuple[str, str]]:
@@ -542,6 +584,9 @@ def program_streams(ctx: fw.Ctx, styles: list, *, check_tree: bool, check_format
         st = ctx.stream("G2 literal stress: values around the long-bracket and wrapping decisions")
         eval_programs(ctx, st, list(literal_stress_programs()), styles, check_tree=check_tree, check_format=True, fixpoint=fixpoint)
         st.exhaustive = True
+        st = ctx.stream("G2 bracket stress: long-bracket values with tempting beginnings, insides and ends, in every position")
+        eval_programs(ctx, st, list(bracket_stress_programs(not ctx.quick)), styles, check_tree=check_tree, check_format=True, fixpoint=fixpoint)
+        st.exhaustive = True
     st = ctx.stream("G7 corpus (lua-tests, test_files) without known-finding features")
     files = corpus_files()
     feats = drive([("features", hx(s)) for _, s in files])
@@ -609,7 +654,8 @@ def t2_programs(ctx: fw.Ctx, n_quick: int, n_thorough: int) -> list[str]:
     progs = random_programs(ctx, "t2g1", ctx.n(n_quick, n_thorough))
     pairs = list(statement_pair_programs())
     lits = list(literal_stress_programs())
-    progs += r.sample(pairs, ctx.n(120, len(pairs))) + r.sample(lits, ctx.n(80, len(lits)))
+    brs = list(bracket_stress_programs(not ctx.quick))
+    progs += r.sample(pairs, ctx.n(120, len(pairs))) + r.sample(lits, ctx.n(80, len(lits))) + r.sample(brs, ctx.n(60, len(brs)))
     progs += [src for k in ("K1", "K2", "K3") for src in K_WITNESSES[k]]
     return progs
 
@@ -618,12 +664,14 @@ def run_c01(ctx: fw.Ctx) -> None:
     program_streams(ctx, DEFAULT_STYLES, check_tree=False, check_format=True, adjacency=0.05 if ctx.quick else 1.0)
     run_witnesses(ctx, ["K1", "K2", "K3"], DEFAULT_STYLES)
     t2_format(ctx, [(p, None) for p in t2_programs(ctx, 250, 5000)])
+    t2_units(ctx, ["findlevel", "sep", "wrap", "comment", "string"])
 
 
 def run_c02(ctx: fw.Ctx) -> None:
     program_streams(ctx, MIN_STYLES, check_tree=False, check_format=True, adjacency=0.25 if ctx.quick else 1.0)
     run_witnesses(ctx, ["K1", "K2", "K3"], MIN_STYLES)
     t2_format(ctx, [(p, "min") for p in t2_programs(ctx, 250, 5000)])
+    t2_units(ctx, ["findlevel", "sep", "comment", "string"])
 
 
 def run_c03(ctx: fw.Ctx) -> None:
@@ -652,7 +700,10 @@ def run_c08(ctx: fw.Ctx) -> None:
     st = ctx.stream("G4 pairwise-complete style set x random programs")
     st.notes["styles"] = len(styles)
     progs = random_programs(ctx, "g1", ctx.n(30, 200))
-    progs += r.sample(list(statement_pair_programs()), ctx.n(40, 400))
+    pairs_all = list(statement_pair_programs())
+    progs += r.sample(pairs_all, ctx.n(40, 400))
+    # statements that begin with a bracket, with and without comments around them: the `;` guard must hold under every style
+    progs += [p for p in pairs_all if "--" in p and ("\n(" in p or "] (" in p or "]] (" in p)][:: ctx.n(2, 1)]
     # deep indentation and long strings stress the wrapping code
     progs += ["do do do do x = 'aaaa bbbb cccc \\\\ dddd \\n eeee \\u{1f600} ffff gggg hhhh iiii' end end end end",
               "f(function() return a, b end, {1, 2, {3, 4, function() return 'x', [[y]] end}}, t[function() return a, b end])",
@@ -674,12 +725,14 @@ def run_c08(ctx: fw.Ctx) -> None:
     run_witnesses(ctx, ["K1", "K2", "K3"], [style_space(r)])
     t2p = t2_programs(ctx, 150, 3000)
     t2_format(ctx, [(p, styles[i % len(styles)]) for i, p in enumerate(t2p)] + [(p, style_space(r)) for p in t2p])
+    t2_units(ctx, ["findlevel", "sep", "wrap", "comment", "string"])
 
 
 def run_c15(ctx: fw.Ctx) -> None:
     program_streams(ctx, MIN_STYLES, check_tree=False, check_format=True, fixpoint=True,
                     adjacency=0.1 if ctx.quick else 1.0)
     t2_format(ctx, [(p, "min") for p in t2_programs(ctx, 200, 4000)])
+    t2_units(ctx, ["findlevel", "sep", "comment", "string"])
 
 
 PROG_RULE = ("programs: random derivations of the manual's grammar rendered with random layout and comments (validated by the Lean Spec), "
@@ -960,6 +1013,10 @@ def string_contexts(v: str) -> list[tuple[str, A.Chunk]]:
         "table-key": A.Assign(T(), [N("x")], [A.Table(T(), [A.ExplicitTableField(T(), S(), N("y"))])]),
         "table-value": A.Assign(T(), [N("x")], [A.Table(T(), [A.NumberedTableField(T(), S()), A.NamedTableField(T(), N("k"), S())])]),
         "method-receiver": A.MethodInvocation(T(), S(), N("rep"), [A.Number(T(), False, "2")]),
+        "index-leftmost-operand": A.Assign(T(), [A.Index(T(), N("t"), A.BinOp(T(), A.BinaryOperand.CONCAT, S(), N("k")))], [N("y")]),
+        "table-key-leftmost-operand": A.Assign(T(), [N("x")], [A.Table(T(), [A.ExplicitTableField(
+            T(), A.BinOp(T(), A.BinaryOperand.EQUALS, A.BinOp(T(), A.BinaryOperand.CONCAT, S(), N("k")), N("z")), N("y"))])]),
+        "index-of-index": A.Assign(T(), [A.Index(T(), A.Index(T(), N("t"), S()), S())], [S()]),
         "return": None,
         "nested-blocks": None,
     }
@@ -1049,6 +1106,13 @@ def run_c06(ctx: fw.Ctx) -> None:
         name, ch = r.choice(string_contexts(v))
         cases.append(({"value": v, "context": name}, ch, r.choice(styles)))
     eval_ast_roundtrip(st3, cases)
+    st5 = ctx.stream("long-bracket values with tempting beginnings, insides and ends x every context x default/minified")
+    cases = []
+    for v in bracket_values(not ctx.quick):
+        for name, ch in string_contexts(v):
+            cases.append(({"value": v, "context": name}, ch, "min" if (dh(v) + dh(name)) % 2 else None))
+    eval_ast_roundtrip(st5, cases)
+    st5.exhaustive = True
     t2c = []
     for v in r.sample(values, ctx.n(400, 5000)) + [c[0]["value"] for c in cases[: ctx.n(100, 1000)]]:
         if "\r" in v or any(0xD800 <= ord(ch) <= 0xDFFF for ch in v):
@@ -1056,13 +1120,14 @@ def run_c06(ctx: fw.Ctx) -> None:
         q = lua_quote(v)
         t2c.append((f"x = {q} .. y; f({q}); t[{q}] = {{[{q}] = 1}}; return ({q}):rep(2)", r.choice(styles)))
     t2_format(ctx, t2c)
+    t2_units(ctx, ["findlevel", "wrap", "string"])
     if not ctx.quick:
         st4 = ctx.stream("all strings of length 5 over a reduced alphabet x default/minified")
         red = ["a", " ", "\n", "\"", "\\", "]", "=", "é"]
         cases = []
         for c in itertools.product(red, repeat=5):
             v = "".join(c)
-            name, ch = string_contexts(v)[dh(v) % 10]
+            name, ch = (lambda cs: cs[dh(v) % len(cs)])(string_contexts(v))
             cases.append(({"value": v, "context": name}, ch, "min" if dh(v) % 2 else None))
         eval_ast_roundtrip(st4, cases)
         st4.exhaustive = True
@@ -1073,7 +1138,7 @@ register(
     run=run_c06,
     modules=["Tumfl.Props.C11"],
     obligations=["Tumfl.Props.C11_roundtrip"],
-    rule="String nodes built directly with the value, placed in 10 syntactic contexts, formatted under styles varying quote preference, "
+    rule="String nodes built directly with the value, placed in 13 syntactic contexts, formatted under styles varying quote preference, "
          "newline limit and line width; oracle: the Lean Spec reads the literal back and the whole tree is compared; distinct = (value, context, style)",
     partial_hypotheses=["no theorem about the model writer yet"],
 )
@@ -1583,6 +1648,31 @@ def run_c09(ctx: fw.Ctx) -> None:
     t2_parse(ctx, prefixes_of(seeds[: ctx.n(8, 60)]) + malformed_inputs(ctx, "c09t2", 4, 40, 200) + char_soup(r, ctx.n(800, 10000)) + crs)
 
 
+# small token alphabets around each grammar rule with an ordering, once-only or separator constraint: every token string up to a length
+# over the alphabet, between a fixed prefix and suffix - the over-approximation a parser loop written too generously would accept
+SUBLANGUAGES = [
+    ("function name", "function a ", [".b", ":c", ".", ":", "d", "()"], " () end", 4, 6),
+    ("local attribs", "local a ", ["<const>", "<close>", "<", ">", "const", ", b", ",", "= 1", "<x>"], "", 4, 5),
+    ("for header", "for a ", [", b", "= 1", ", 1", "in c", ",", "=", "in", "1"], " do end", 4, 6),
+    ("table fields", "x = { ", ["a", "= 1", "1", ",", ";", "[1]", "[", "]", "="], " }", 4, 5),
+    ("suffix chain", "a ", [".b", ":c", "()", "'s'", "{}", "[1]", "= 1", ", d", ".", ":", "("], "", 3, 5),
+    ("if chain", "if a then ", ["else", "elseif b then", "elseif", "then", "end", "x = 1", "if c then"], " end", 4, 6),
+    ("simple statements", "", ["goto a", "::a::", "goto", "::", "a", "return", "break", ";", "return 1", ", 2"], "", 4, 5),
+    ("loops", "", ["while a do", "repeat", "until a", "do", "end", "x = 1", "while", "a"], "", 4, 6),
+    ("parameters", "x = function( ", ["a", ",", "...", ")", "end", "= 1"], "", 5, 7),
+    ("operators", "x = ", ["a", "-", "not", "^", "..", "(", ")", "1", "<"], "", 4, 5),
+    ("assignment targets", "", ["a", "(a)", ".b", "[1]", "()", ",", "= 1", "(", ")"], "", 4, 5),
+]
+
+
+def sublanguage_programs(full: bool):
+    for name, pre, alpha, suf, q, t in SUBLANGUAGES:
+        n = t if full else q
+        for k in range(0, n + 1):
+            for c in itertools.product(alpha, repeat=k):
+                yield name, pre + " ".join(c) + suf
+
+
 def run_c10(ctx: fw.Ctx) -> None:
     st = ctx.stream("single-token mutations classified by the reference grammar")
     srcs = malformed_inputs(ctx, "c10mut", 15, 200, 300)
@@ -1601,7 +1691,12 @@ def run_c10(ctx: fw.Ctx) -> None:
             dbl += token_mutations(toks, r, 8)
         eval_accept(st_d, dbl)
     eval_accept(st, srcs)
-    t2_parse(ctx, srcs[:: ctx.n(4, 1)])
+    st_s = ctx.stream("every token string up to a length over 11 small alphabets around the grammar's ordering and once-only constraints")
+    subs = sorted({src for _, src in sublanguage_programs(not ctx.quick)})
+    eval_accept(st_s, subs)
+    st_s.exhaustive = True
+    r2 = ctx.rng("c10sub")
+    t2_parse(ctx, srcs[:: ctx.n(4, 1)] + r2.sample(subs, ctx.n(3000, 60000)))
 
 
 def eval_accept(st: fw.Stream, srcs: list[str]) -> None:
@@ -2768,6 +2863,86 @@ def t2_format(ctx: fw.Ctx, cases: list[tuple[str, Any]], name: str = "T2:format"
                                   "model": " | ".join(a[first:first + 1])[:700], "tumfl": " | ".join(b[first:first + 1])[:700]})
 
 
+# =========================================================================== T2 correspondence at unit level: helper functions of the formatter
+def _strs(alpha, n):
+    return ["".join(c) for k in range(n + 1) for c in itertools.product(alpha, repeat=k)]
+
+
+def t2_units(ctx: fw.Ctx, which: list[str], name: str = "T2:units") -> None:
+    """Correspondence of single helper functions (model vs formatter.py) on every input up to a length over a small alphabet chosen
+    around the decisions the helper takes.  Cheap, exhaustive in its range, and it localises a difference to one function."""
+    st = ctx.stream(name + " correspondence (helper functions, exhaustive small inputs)")
+    st.exhaustive = True
+    priv = FM.__dict__
+    q = ctx.quick
+    reqs: list[tuple[tuple, Any]] = []
+
+    def call(fn, *a):
+        try:
+            with quiet():
+                return fn(*a)
+        except Exception as e:  # noqa: BLE001
+            return e
+
+    if "findlevel" in which:
+        for v in _strs(["[", "]", "=", "a"], 7 if q else 9):
+            reqs.append((("munit", "findlevel", hx(v)), lambda v=v: f"ok {FM.Formatter._find_level(v)}"))
+    if "sep" in which:
+        toks = _strs(["a", "1", ".", "-", "[", "=", "~", "<", "_", "e", "/", ":", "\"", "]"], 2)[1:]
+        toks += ["..", "...", "0x1", "1.", ".5", "[[", "[=[", "[[x]]", "--", "and", "not", "1e", "==", "~=", "<=", ">>", "//", "::"]
+        for a in [""] + toks:
+            for b in [""] + toks:
+                def f(a=a, b=b):
+                    r = call(FM.sep_required, a, b)
+                    return f"err py {type(r).__name__} formatter.sep_required" if isinstance(r, Exception) else f"ok {str(bool(r)).lower()}"
+                reqs.append((("munit", "sep", hx(a), hx(b)), f))
+    if "wrap" in which:
+        vals = _strs(["a", " ", "\\", "u", "{", "}", "1", "x", "z", ".", "\""], 3 if q else 5)
+        vals += ['"' + "ab " * k + "\\u{" + "1" * j + "}" + " c" * m + '"' for k in range(4) for j in range(5) for m in range(3)]
+        vals += ["a" * k + "\\" + d + "b" for k in range(3) for d in ("1", "12", "123", "1234", "x41", "xg", "n", "z", "u", "u{", "u{}", "\\")]
+        for v in vals:
+            reqs.append((("munit", "escpos", hx(v)), lambda v=v: "ok " + " ".join(map(str, sorted(priv["__escape_positions"](v))))))
+            for m in range(-1, len(v) + 2):
+                reqs.append((("munit", "newlinepos", hx(v), str(m)), lambda v=v, m=m: f"ok {priv['__get_newline_pos'](v, m)}"))
+        r = ctx.rng("units-wrap")
+        stys = [FormattingStyle, MinifiedStyle] + [mkstyle(dict(LINE_WIDTH=w, INDENTATION=i)) for w in (1, 5, 8, 13) for i in ("\t", "  ", "")]
+        pool = ["a", "b", " ", " ", "\\n", "\\u{e9}", "\\u{1f600}", "\\x00", "\\\\", "\\\"", ".", "1", "\\12", "\\z", "{", "}"]
+        for _ in range(ctx.n(1500, 30000)):
+            body = "".join(r.choice(pool) for _ in range(r.choice([0, 1, 3, 8, 20, 60, 150])))
+            v = '"' + body + '"'
+            sty = r.choice(stys)
+            ind = r.choice([0, 0, 1, 2, 5, 40])
+
+            def f(v=v, ind=ind, sty=sty):
+                res = call(FM._string_ident, v, ind, sty)
+                return f"err py {type(res).__name__} formatter._string_ident" if isinstance(res, Exception) else "ok " + show_pieces(res)
+            reqs.append((("munit", "stringident", hx(v), str(ind), *style_args(sty)), f))
+    if "comment" in which:
+        stys = [FormattingStyle, MinifiedStyle, mkstyle(dict(COMMENT_SEP="")), mkstyle(dict(COMMENT_SEP="  "))]
+        for v in _strs(["[", "]", "=", "a", "\n", " ", "-"], 4 if q else 6):
+            for sty in stys:
+                reqs.append((("munit", "comment", hx(v), *style_args(sty)), lambda v=v, sty=sty: "ok " + show_pieces(FM.Formatter(sty)._format_comment(v))))
+    if "string" in which:
+        stys = [FormattingStyle, MinifiedStyle, mkstyle(dict(USE_SINGLE_QUOTE=True, NEWLINE_LIMIT=0)), mkstyle(dict(NEWLINE_LIMIT=2))]
+        vals = _strs(["a", " ", "\n", "\"", "'", "\\", "]", "[", "=", "é", "\x00", "\t"], 3 if q else 4)
+        vals += [v for v in bracket_values(False)]
+        for v in vals:
+            for sty in stys:
+                reqs.append((("munit", "string", hx(v), *style_args(sty)),
+                             lambda v=v, sty=sty: "ok " + show_pieces(FM.Formatter(sty).visit_String(A.String(T(TokenType.STRING, v), v)))))
+    answers = drive([r_ for r_, _ in reqs])
+    for (req, fn), ans in zip(reqs, answers):
+        st.record({"kind": "t2-unit", "op": req[1]}, key=repr(req))
+        st.notes[req[1]] = st.notes.get(req[1], 0) + 1
+        mine = fn()
+        if ans != mine:
+            ctx.tie_broken(name, {"unit": req[1], "args": [unhx(x) if i < 1 or req[1] == "sep" else x for i, x in enumerate(req[2:])][:3],
+                                  "model": ans[:500], "tumfl": mine[:500]})
+            st.notes["differences"] = st.notes.get("differences", 0) + 1
+            if st.notes["differences"] > 20:
+                break
+
+
 # =========================================================================== Lean obligations per property (overrides the placeholders above)
 ALL_T1 = ["Brackets", "FmtTables", "LexTables", "Ladder"]
 LEAN_OBLIGATIONS: dict[str, dict] = {
@@ -2775,7 +2950,8 @@ LEAN_OBLIGATIONS: dict[str, dict] = {
         modules=["Tumfl.Props.C06"],
         obligations=["Tumfl.Props.C06_quoted", "Tumfl.Props.C06_long", "Tumfl.Props.C06_forms", "Tumfl.Inst.escTable_ok"],
         extractors=["FmtTables", "Brackets"],
-        tie_names=["T1:FmtTables (ESCAPE_CHARACTERS re-extracted; EscTableOK re-decided)", "T2:format (visit_String and every layout pass, stage by stage)"],
+        tie_names=["T1:FmtTables (ESCAPE_CHARACTERS re-extracted; EscTableOK re-decided)", "T2:format (visit_String and every layout pass, stage by stage)",
+                   "T2:units (_find_level, __escape_positions, __get_newline_pos, _string_ident, visit_String: every input up to a length over small alphabets)"],
         partial_hypotheses=["the `\\z` line wrapping of _string_ident is modelled and T2-tied but has no theorem: wrapped literals are covered by the oracle streams only"],
     ),
 }
@@ -2909,7 +3085,8 @@ for _p, _extra in (("C01", []), ("C02", []), ("C08", []), ("C15", [])):
         modules=FORMAT_MODULES,
         obligations=LAYOUT_OBL + PIECE_OBL,
         extractors=ALL_T1,
-        tie_names=["T1:Brackets", "T1:FmtTables", "T1:LexTables", "T1:Ladder", "T2:format (emit and every layout pass, stage by stage, and the final text)"],
+        tie_names=["T1:Brackets", "T1:FmtTables", "T1:LexTables", "T1:Ladder", "T2:format (emit and every layout pass, stage by stage, and the final text)",
+                   "T2:units (_find_level, sep_required, __escape_positions, __get_newline_pos, _string_ident, _format_comment, visit_String: every input up to a length over small alphabets)"],
         partial_hypotheses=FORMAT_PARTIAL + (["idempotence itself (C15) has no theorem: byte comparison of two minify passes in the oracle stream"] if _p == "C15" else []),
     )
 LEAN_OBLIGATIONS["C11"] = dict(
